@@ -83,12 +83,14 @@ TRM ==
              /\ s' = RANext(s1, wc, Ev.err)
   /\ UNCHANGED << cfg, fr >> /\ Adv
 
+TSRD == /\ Is("SRD") /\ Ev.err.cls = "nil" /\ UNCHANGED << cfg, fr, s >> /\ Adv
+
 TPanic == /\ Is("PANIC") /\ PanicAllowed(s)
           /\ UNCHANGED << cfg, fr, s >> /\ Adv
 
 TInit == l = 1 /\ cfg = [role |-> "server"] /\ fr = << >> /\ s = S0
 
-TNext == TReset \/ TPanic \/ TNR \/ TRD \/ TRA \/ TRM
+TNext == TReset \/ TSRD \/ TPanic \/ TNR \/ TRD \/ TRA \/ TRM
 
 TSpec == TInit /\ [][TNext]_tvars
 
